@@ -19,11 +19,11 @@ func cfgK1() *store.VerifCfg {
 		BodyMax: 64 << 10, BodyInC: 64, MaxReq: 3, Hash: hashAB}
 }
 func cfgK16() *store.VerifCfg {
-	return &store.VerifCfg{Name: "b16-h2-vhash-f768-s1024", NumBucket: 16, Served: []int{3, 0xa, 0xf}, TreeHeight: 2, CheckVHash: true,
+	return &store.VerifCfg{Name: "b16-h2-vhash-f768-s1024", NumBucket: 16, Served: []int{0xa}, TreeHeight: 2, CheckVHash: true,
 		DataFileMax: 768, SplitCap: 1024, BufIOCap: 4096, BodyMax: 64 << 10, BodyInC: 64, MaxReq: 3, Hash: hashAB}
 }
 func cfgK256() *store.VerifCfg {
-	return &store.VerifCfg{Name: "b256-h3-fdef-s2", NumBucket: 256, Served: []int{0xab, 0x3c}, TreeHeight: 3,
+	return &store.VerifCfg{Name: "b256-h3-fdef-s2", NumBucket: 256, Served: []int{0xab}, TreeHeight: 3,
 		SplitCap: 2, BufIOCap: 4096, BodyMax: 64 << 10, BodyInC: 4096, MaxReq: 3, Hash: hashAB}
 }
 
@@ -58,9 +58,18 @@ func c01Exec(x *XSpec, s *vsched.Sched, hist []Op, wantDump bool) (*Mismatch, st
 }
 
 func C01(job *Job, r *Report) {
+	for _, x := range c01Specs(job.Tier) {
+		if job.Part != "" && job.Part != x.Name {
+			continue
+		}
+		x.Explore(r, job)
+	}
 	r.Level = "model_checking"
 	r.Rule = "every sequence of mutating operations up to the stated depth over the stated alphabet (DFS, simplest letter first), each executed on a fresh real store on memfs; after each history the full read battery (get, ?key, ??key, memory-only lookup, multi-get through the memcached text protocol) is compared with the reference map; distinct = distinct canonical dumps of (tree items, buffers, hint splits, collision table, memfs content hash)"
 	r.Assumptions = []string{"incr version rule pinned from the implementation (absent/tombstone -> version 1)", "a set with a stale explicit revision is answered STORED and ignored (as implemented)", "memfs models POSIX file semantics (validated by OS replay)", "cgo calls are atomic"}
+}
+
+func c01Specs(tier string) []*XSpec {
 	keys := []string{"a", "b"}
 	base := perKey(keys,
 		Op{K: "set", V: "s"},
@@ -75,9 +84,13 @@ func C01(job *Job, r *Report) {
 	glob := []Op{{K: "flush"}, {K: "bg"}}
 	quickAlpha := append(append([]Op{}, base...), glob...)
 	var specs []*XSpec
-	if job.Tier == "quick" {
+	if tier == "quick" {
 		for _, c := range []*store.VerifCfg{cfgK1(), cfgK16(), cfgK256()} {
-			specs = append(specs, &XSpec{Property: "C01", Name: c.Name, Cfg: c, Alphabet: quickAlpha, Depth: 4, Keys: keys, Exec: c01Exec})
+			al := quickAlpha
+			if c.CheckVHash {
+				al = append(append([]Op{}, quickAlpha...), perKey(keys, Op{K: "set", V: "hA"}, Op{K: "set", V: "hB"})...)
+			}
+			specs = append(specs, &XSpec{Property: "C01", Name: c.Name, Cfg: c, Alphabet: al, Depth: 4, Keys: keys, Exec: c01Exec})
 		}
 	} else {
 		full := append(append([]Op{}, quickAlpha...), perKey(keys,
@@ -87,6 +100,8 @@ func C01(job *Job, r *Report) {
 			Op{K: "set", V: "s", Flag: 0x10},
 			Op{K: "setsame", Rev: 3},
 			Op{K: "setsame", Rev: -1},
+			Op{K: "setsame", Flag: 0x10},
+			Op{K: "set", V: "hA"}, Op{K: "set", V: "hB"},
 		)...)
 		full = append(full, Op{K: "flushp"})
 		for _, c := range []*store.VerifCfg{cfgK1(), cfgK16(), cfgK256()} {
@@ -96,7 +111,5 @@ func C01(job *Job, r *Report) {
 			specs = append(specs, &XSpec{Property: "C01", Name: c.Name + "-d5", Cfg: c, Alphabet: quickAlpha, Depth: 5, Keys: keys, Exec: c01Exec})
 		}
 	}
-	for _, x := range specs {
-		x.Explore(r, job)
-	}
+	return specs
 }
